@@ -317,6 +317,122 @@ func t01VerifyCase(kt, exp int, chain []t01Cert) ([]int64, error) {
 	return append(line, cls, kid, dcls, dkid), nil
 }
 
+// ---- concurrent verifications ------------------------------------------------------------------------
+// Several goroutines keep verifying the genuine certificate of victim A (certificate key 2)
+// while others keep verifying forged chains: the attacker's own certificate (key 1) carrying
+// A's extension verbatim, and the attacker's certificate with its own extension but naming A.
+// Every forged chain must be rejected in every interleaving; an acceptance is written out as
+// a tag 2 case with the chain (the monitor then reports that the chain does not certify the key).
+func t01Concurrent(t *testing.T, out *verifh.Out, kt int, thorough bool) {
+	genuine := []t01Cert{{key: 2, signer: 2, intact: 1, timeok: 1, exts: []t01Ext{t01Good(1, 2)}}}
+	forged := [][]t01Cert{
+		{{key: 1, signer: 1, intact: 1, timeok: 1, exts: []t01Ext{t01Good(1, 2)}}},           // A's extension in E's certificate
+		{{key: 1, signer: 1, intact: 1, timeok: 1, exts: []t01Ext{{1, 0, 1, 1, 3, 1, 1}}}},   // claims A, signed by E
+		{{key: 3, signer: 3, intact: 1, timeok: 1, exts: []t01Ext{t01Good(1, 2)}}},           // the same with another certificate key
+	}
+	total := 20000
+	if thorough {
+		total = 400000
+	}
+	if kt == 3 {
+		total /= 4 // RSA verification is slow
+	}
+	parse := func(ch []t01Cert) []*x509.Certificate {
+		raw, err := t01Raw(kt, ch)
+		if err != nil {
+			t.Fatal(err)
+		}
+		var r []*x509.Certificate
+		for _, der := range raw {
+			c, err := x509.ParseCertificate(der)
+			if err != nil {
+				t.Fatal(err)
+			}
+			r = append(r, c)
+		}
+		return r
+	}
+	const nGenuine, nForged = 4, 4
+	per := total / (nGenuine + nForged)
+	var wg sync.WaitGroup
+	var mu sync.Mutex
+	accepted := map[int]int64{} // forged chain index -> key name it was accepted for
+	var genuineRejected int64
+	stop := make(chan struct{})
+	var once sync.Once
+	for g := 0; g < nGenuine; g++ {
+		wg.Add(1)
+		go func() {
+			defer wg.Done()
+			chain := parse(genuine)
+			for i := 0; i < per; i++ {
+				select {
+				case <-stop:
+					return
+				default:
+				}
+				if _, err := PubKeyFromCertChain(chain); err != nil {
+					mu.Lock()
+					genuineRejected++
+					mu.Unlock()
+				}
+			}
+		}()
+	}
+	for g := 0; g < nForged; g++ {
+		wg.Add(1)
+		go func(g int) {
+			defer wg.Done()
+			fi := g % len(forged)
+			chain := parse(forged[fi])
+			for i := 0; i < per; i++ {
+				select {
+				case <-stop:
+					return
+				default:
+				}
+				if k, err := PubKeyFromCertChain(chain); err == nil {
+					kid := int64(9)
+					if id, e2 := peer.IDFromPublicKey(k); e2 == nil {
+						kid = t01Name(kt, id)
+					}
+					mu.Lock()
+					accepted[fi] = kid
+					mu.Unlock()
+					once.Do(func() { close(stop) })
+					return
+				}
+			}
+		}(g)
+	}
+	wg.Wait()
+	out.CoverN("tls_concurrent_verifications", int64(total))
+	for fi, ch := range forged {
+		line := []int64{2, int64(kt), 0}
+		line = append(line, t01ChainInts(ch)...)
+		if kid, ok := accepted[fi]; ok {
+			// PubKeyFromCertChain accepted it while something else was being verified (the callback
+			// slot carries the sequential verdict)
+			cls := t01Classify(func() error { _, err := PubKeyFromCertChain(parse(ch)); return err }())
+			line = append(line, cls, 0, 0, kid)
+			out.Cover("tls_concurrent_forged_chain_accepted")
+		} else {
+			cls := t01Classify(func() error { _, err := PubKeyFromCertChain(parse(ch)); return err }())
+			line = append(line, cls, 0, cls, 0)
+			out.Cover("tls_concurrent_forged_chain_always_rejected")
+		}
+		out.Case(line)
+	}
+	if genuineRejected > 0 {
+		// the genuine certificate refused because of a neighbour: not a property violation (nobody
+		// completes), but the model says accepted, so conformance reports it
+		line := []int64{2, int64(kt), 0}
+		line = append(line, t01ChainInts(genuine)...)
+		out.Case(append(line, tcSig, 0, tcSig, 0))
+		out.Cover("tls_concurrent_genuine_chain_rejected")
+	}
+}
+
 // ---- handshakes ------------------------------------------------------------------------------------
 type t01Side struct {
 	id, exp, holds int
@@ -690,6 +806,11 @@ func TestVerifC01TLS(t *testing.T) {
 				}
 			}
 		}
+	}
+	// tag 2, concurrent stream: verifications share nothing, so a chain is judged the same way
+	// whatever runs next to it
+	for _, kt := range types {
+		t01Concurrent(t, out, kt, thorough)
 	}
 	// tag 3
 	cases := t01GenHandshakes(t, rnd, types, thorough)
